@@ -20,6 +20,12 @@ func init() {
 			{Pkg: "wire", Entry: "VerifH10c", What: "session: oversized message of any type skipped in full, one non-fatal 54000 ErrorResponse, next message processed normally",
 				Quick: map[string]int{"LVAR": 3, "OVER": 3, "DISCARD": 1}, Thorough: map[string]int{"LVAR": 5, "OVER": 5, "DISCARD": 1},
 				Witnesses: []string{"oversized-first", "oversized-in-the-middle", "oversized-while-discarding"}},
+			{Pkg: "wire", Entry: "VerifH10g", What: "a header declaring any length above the limit up to 2^32-1 (top bit set included), followed by fewer bytes than declared (a well-formed Query) and the end of the stream: those bytes are body, never a message; no callback",
+				Quick: map[string]int{}, Witnesses: []string{"declared-length-with-the-top-bit-set", "declared-length-below-2^31"}},
+			{Pkg: "wire", Entry: "VerifH10h", What: "the limit after a COPY-in cycle on the same connection: an oversized message is still skipped and answered with 54000, the next query is served",
+				Quick: map[string]int{"OVER": 3}, Witnesses: []string{"oversized-after-a-copy-in-cycle"}},
+			{Pkg: "wire", Entry: "VerifH10i", What: "an oversized message (body made of well-formed messages, one of them a Query) arriving while a handler reads COPY data: skipped in full, nothing of it taken for a message, the COPY aborted with exactly one ErrorResponse and one ReadyForQuery, the query after it served",
+				Quick: map[string]int{}, Witnesses: []string{"oversized-copydata", "query-inside-the-oversized-body"}},
 			{Pkg: "wire", Entry: "VerifH10e", What: "startup packet declaring a length below 4 or above the limit: connection ends, no session",
 				Quick: map[string]int{"REST": 6}, Witnesses: []string{"startup-length-below-minimum", "startup-length-above-limit"}},
 			{Pkg: "wire", Entry: "VerifH11", What: "the configured limit is the one in force on a TLS-upgraded connection and on a connection whose SSLRequest was refused",
@@ -41,6 +47,8 @@ func init() {
 			{Pkg: "buffer", Entry: "VerifH18k", What: "K successive windows from a fresh reader, sizes symbolic in 0..9000 with symbolic consumption in between: every window stays disjoint from every later one (covers reader state beyond the window header)",
 				Quick: map[string]int{"K": 5, "SMAX": 9000}, Thorough: map[string]int{"K": 6, "SMAX": 9000},
 				Witnesses: []string{"large-window", "same-array-reused"}},
+			{Pkg: "wire", Entry: "VerifH18p", What: "the password, user and database strings handed to a password validator equal their private copies after later traffic, with the default and with a small message limit",
+				Quick: map[string]int{"K": 2}, Witnesses: []string{"default-limit", "small-limit"}},
 			{Pkg: "wire", Entry: "VerifH18b", What: "retained query text and parameter value equal their private copies after K later messages with sizes around the 4 KiB granule and the limit",
 				Quick: map[string]int{"K": 2}, Thorough: map[string]int{"K": 3},
 				Witnesses: []string{"later-message-near-granule", "later-oversized-message", "large-retained-message", "abandoned-copy", "rejected-parse-then-skipped-messages"}},
